@@ -292,86 +292,134 @@ def _check_duration_definition(prog: Program, res: Result):
 
 
 # ---------------------------------------------------------------------------
+def _int_canon(c, I: Rat):
+    """comparison over integers -> (expr, '<0' | '>0') with the coefficient of I positive;  a <= 0 == a - 1 < 0"""
+    if c.kind != "cmp":
+        return None
+    a, sg = c.a, c.s
+    if sg == frozenset("-"):
+        e, rel = a, "<0"
+    elif sg == frozenset("-0"):
+        e, rel = a - Rat.const(1), "<0"
+    elif sg == frozenset("+"):
+        e, rel = a, ">0"
+    elif sg == frozenset("+0"):
+        e, rel = a + Rat.const(1), ">0"
+    else:
+        return None
+    # orientation: make d(e)/dI = +1
+    probe = e.subs({I.key(): I + Rat.const(1)}) - e
+    if probe.is_const() and probe.const_value() < 0:
+        e, rel = -e, (">0" if rel == "<0" else "<0")
+    return e, rel
+
+
 def _check_ipf(prog: Program, res: Result, ma: hc.MonthAnalysis):
+    """R07.2 - what is decided is the predicate 'flag[i] is True' of single-year loads, whatever its shape (a loop of guarded
+    stores over a False-initialised list, or a comprehension): it must be  i < start + retain_start  or  i > end - retain_end"""
     fi = ma.fi
-    # assignments  ipf[<loop var>] = True  with their guards
-    hits = []
-    init_ok = None
-
-    class V(ast.NodeVisitor):
-        def __init__(self):
-            self.stack = []
-
-        def visit_If(self, n):
-            self.stack.append((n, True))
-            for s in n.body:
-                self.visit(s)
-            self.stack[-1] = (n, False)
-            for s in n.orelse:
-                self.visit(s)
-            self.stack.pop()
-
-        def visit_Assign(self, n):
-            nonlocal init_ok
-            for t in n.targets:
-                if isinstance(t, ast.Subscript) and attr_chain(t.value) == "ipf":
-                    hits.append((n, list(self.stack)))
-                if isinstance(t, ast.Name) and t.id == "ipf":
-                    hits.append((n, list(self.stack)))
-
-    V().visit(fi.node)
+    NAME = ma.flag_name
     eng = Engine(prog, fi, Hooks())
     st = State()
-    single_year = None
-    flags = []
-    for n, guards in hits:
-        t = n.targets[0]
-        if isinstance(t, ast.Name):
-            # ipf = [X] * (...)
-            v = n.value
-            if isinstance(v, ast.BinOp) and isinstance(v.left, ast.List) and len(v.left.elts) == 1 and isinstance(v.left.elts[0], ast.Constant):
-                is_single = _is_single_year_branch(eng, st, guards)
-                if is_single is True:
-                    init_ok = v.left.elts[0].value is False
-                    res.ob("R07.2", "single-year loads: include-peak flags default to False", init_ok, prog.loc(fi, n))
-                    if not init_ok:
-                        res.violation("R07.2", "ipf-default", prog.loc(fi, n), fi.qualname,
-                                      "the include-peak flags do not default to False for single-year loads "
-                                      "(months between the first and last twelve would retain peaks)")
-            continue
-        # ipf[i] = True under a guard on i
-        if not (isinstance(n.value, ast.Constant) and n.value.value is True):
-            res.violation("R07.2", f"ipf-write:{norm_stmt(n)}", prog.loc(fi, n), fi.qualname,
-                          f"include-peak flag written with something other than True: {norm_stmt(n)}")
-            continue
-        inner = [(g, pol) for g, pol in guards if "len(self.years)" not in ast.unparse(g.test)]
-        if len(inner) != 1 or not inner[0][1]:
-            raise AnalysisError(f"{fi.qualname}: guard of '{norm_stmt(n)}' not understood")
-        c = eng.cond(inner[0][0].test, st)
-        flags.append((c, n))
-    if init_ok is None:
-        raise AnalysisError(f"{fi.qualname}: initialisation of the include-peak flags for single-year loads not found")
     I = Rat.atom(ma.loop_var)
+    # the branch taken by single-year loads
+    branch = None
+    for n in fi.node.body:
+        if isinstance(n, ast.If) and "len(self.years)" in ast.unparse(n.test):
+            defines = lambda blk: any(isinstance(x, ast.Name) and x.id == NAME and isinstance(x.ctx, ast.Store) for b in blk for x in ast.walk(b))  # noqa: E731
+            if defines(n.body) or defines(n.orelse):
+                pol = _is_single_year_branch(eng, st, [(n, True)])
+                if pol is None:
+                    raise AnalysisError(f"{fi.qualname}: branch on len(self.years) not understood")
+                branch = n.body if pol else n.orelse
+    if branch is None:
+        raise AnalysisError(f"{fi.qualname}: initialisation of the include-peak flags ({NAME}) for single-year loads not found")
+    disjuncts = []  # (Cond over I, node)
+    init_seen = False
+    for b in branch:
+        if isinstance(b, ast.Assign) and len(b.targets) == 1 and isinstance(b.targets[0], ast.Name) and b.targets[0].id != NAME:
+            eng._s_Assign(b, st)
+            continue
+        if isinstance(b, ast.Assign) and len(b.targets) == 1 and isinstance(b.targets[0], ast.Name) and b.targets[0].id == NAME:
+            v = b.value
+            init_seen = True
+            if isinstance(v, ast.BinOp) and isinstance(v.op, ast.Mult) and isinstance(v.left, ast.List) and len(v.left.elts) == 1 and isinstance(v.left.elts[0], ast.Constant):
+                init_ok = v.left.elts[0].value is False
+                res.ob("R07.2", "single-year loads: include-peak flags default to False", init_ok, prog.loc(fi, b))
+                if not init_ok:
+                    res.violation("R07.2", "ipf-default", prog.loc(fi, b), fi.qualname,
+                                  "the include-peak flags do not default to False for single-year loads "
+                                  "(months between the first and last twelve would retain peaks)")
+                ln = eng.eval(v.right, st)
+                okl = isinstance(ln, Rat) and ln.equals(Rat.atom("self.end_month") + Rat.const(1))
+                if not okl:
+                    raise AnalysisError(f"{fi.qualname}: length of the flag list not understood: {ast.unparse(v.right)}")
+            elif isinstance(v, ast.ListComp) and len(v.generators) == 1 and not v.generators[0].ifs and isinstance(v.generators[0].target, ast.Name):
+                g = v.generators[0]
+                it = g.iter
+                okr = isinstance(it, ast.Call) and attr_chain(it.func) == "range" and len(it.args) == 1
+                up = eng.eval(it.args[0], st) if okr else None
+                if not (okr and isinstance(up, Rat) and up.equals(Rat.atom("self.end_month") + Rat.const(1))):
+                    raise AnalysisError(f"{fi.qualname}: the flag comprehension does not run over range(self.end_month + 1)")
+                s2 = st.fork()
+                s2.env[g.target.id] = I
+                c = eng.cond(v.elt, s2)
+                parts = c.a if c.kind == "or" else [c]
+                for c_ in parts:
+                    disjuncts.append((c_, b))
+                res.ob("R07.2", "single-year loads: the flags are a predicate of the month index over range(end_month + 1)", True, prog.loc(fi, b))
+            else:
+                raise AnalysisError(f"{fi.qualname}: definition of the flag list not understood: {norm_stmt(b)[:80]}")
+            continue
+        if isinstance(b, ast.For) and isinstance(b.target, ast.Name):
+            okr = isinstance(b.iter, ast.Call) and attr_chain(b.iter.func) == "range" and len(b.iter.args) == 2
+            if okr:
+                lo, hi = eng.eval(b.iter.args[0], st), eng.eval(b.iter.args[1], st)
+                okr = isinstance(lo, Rat) and isinstance(hi, Rat) and lo.equals(Rat.atom("self.start_month")) and hi.equals(Rat.atom("self.end_month") + Rat.const(1))
+            stores = []
+
+            def walk(stmts, guards):
+                for x in stmts:
+                    if isinstance(x, ast.If):
+                        walk(x.body, guards + [(x.test, True)])
+                        walk(x.orelse, guards + [(x.test, False)])
+                    elif isinstance(x, ast.Assign) and any(isinstance(t, ast.Subscript) and isinstance(t.value, ast.Name) and t.value.id == NAME for t in x.targets):
+                        stores.append((x, guards))
+
+            walk(b.body, [])
+            if stores and not okr:
+                raise AnalysisError(f"{fi.qualname}: the flag loop does not run over range(start_month, end_month + 1)")
+            for x, guards in stores:
+                t = x.targets[0]
+                if not (isinstance(x.value, ast.Constant) and x.value.value is True and ast.unparse(t.slice) == b.target.id):
+                    res.violation("R07.2", f"ipf-write:{norm_stmt(x)}", prog.loc(fi, x), fi.qualname,
+                                  f"include-peak flag written with something other than True at the loop's own index: {norm_stmt(x)}")
+                    continue
+                if len(guards) != 1 or not guards[0][1]:
+                    raise AnalysisError(f"{fi.qualname}: guard of '{norm_stmt(x)}' not understood")
+                s2 = st.fork()
+                s2.env[b.target.id] = I
+                c = eng.cond(guards[0][0], s2)
+                for c_ in (c.a if c.kind == "or" else [c]):
+                    disjuncts.append((c_, x))
+            continue
+    if not init_seen:
+        raise AnalysisError(f"{fi.qualname}: initialisation of the include-peak flags for single-year loads not found")
     want_first = (I - Rat.atom("self.start_month") - Rat.atom("self.peak_retain_start"))
     want_last = (I - Rat.atom("self.end_month") + Rat.atom("self.peak_retain_end"))
     got_first = got_last = False
-    for c, n in flags:
-        # loop variable of the flag loop may differ in name from the emission loop: compare modulo that name
-        if c.kind != "cmp":
-            raise AnalysisError(f"{fi.qualname}: include-peak guard is not a comparison: {c.key()}")
-        lv = _loop_var_of(fi.node, n)
-        a = c.a.subs({lv: I}) if lv else c.a
-        if a.equals(want_first) and c.s == frozenset("-"):
+    for c, n in disjuncts:
+        cn = _int_canon(c, I)
+        if cn is None:
+            raise AnalysisError(f"{fi.qualname}: include-peak condition is not a comparison: {c.key()}")
+        e, rel = cn
+        if rel == "<0" and e.equals(want_first):
             got_first = True
-        elif a.equals(-want_first) and c.s == frozenset("+"):
-            got_first = True
-        elif a.equals(want_last) and c.s == frozenset("+"):
-            got_last = True
-        elif a.equals(-want_last) and c.s == frozenset("-"):
+        elif rel == ">0" and e.equals(want_last):
             got_last = True
         else:
-            res.violation("R07.2", f"ipf-guard:{c.key()}", prog.loc(fi, n), fi.qualname,
-                          f"include-peak flag set under an unexpected condition: {c.key()} "
+            res.violation("R07.2", f"ipf-guard:{e.key()}{rel}", prog.loc(fi, n), fi.qualname,
+                          f"include-peak flag set under an unexpected condition: {e.key()} {rel[0]} 0 "
                           f"(expected i < start_month + peak_retain_start or i > end_month - peak_retain_end)")
     res.ob("R07.2", "flag set for i < start_month + peak_retain_start", got_first, prog.loc(fi, fi.node))
     res.ob("R07.2", "flag set for i > end_month - peak_retain_end", got_last, prog.loc(fi, fi.node))
@@ -461,25 +509,70 @@ def _check_two_day(prog: Program, res: Result):
     iv = loop.target.id
     eng = Engine(prog, fi, Hooks())
     st = State()
-    prefixed = {}  # local name -> (series attr, prefix length Rat)
+    prefixed = {}  # local name -> (series attr, prefix length Rat, stmt)
     same_len = _series_same_length(prog, res)
+    SERIES = ("self.hourly_rejection_loads", "self.hourly_extraction_loads")
+    lists = {}  # local name -> [(series, lo Rat, hi Rat|None)] for locals that are concatenations of slices of the two series
+
+    def segs(e):
+        """list expression -> segments, or None"""
+        c = attr_chain(e)
+        if c in SERIES:
+            return [(c, Rat.const(0), None)]
+        if isinstance(e, ast.Name) and e.id in lists:
+            return list(lists[e.id])
+        if isinstance(e, ast.Call) and attr_chain(e.func) == "list" and len(e.args) == 1:
+            return segs(e.args[0])
+        if isinstance(e, ast.Call) and isinstance(e.func, ast.Attribute) and e.func.attr == "copy" and not e.args:
+            return segs(e.func.value)
+        if isinstance(e, ast.BinOp) and isinstance(e.op, ast.Add):
+            a, b = segs(e.left), segs(e.right)
+            return a + b if a is not None and b is not None else None
+        if isinstance(e, ast.Subscript) and isinstance(e.slice, ast.Slice) and e.slice.step is None:
+            a = segs(e.value)
+            if a is None or len(a) != 1:
+                return None
+            ser, lo0, hi0 = a[0]
+            lo = eng.eval(e.slice.lower, st) if e.slice.lower is not None else Rat.const(0)
+            hi = eng.eval(e.slice.upper, st) if e.slice.upper is not None else None
+            if not isinstance(lo, Rat) or (hi is not None and not isinstance(hi, Rat)) or hi0 is not None:
+                return None
+            return [(ser, lo0 + lo, (lo0 + hi) if hi is not None else None)]
+        return None
+
+    def norm_len(x):
+        if isinstance(x, Rat) and same_len:
+            return x.subs({a: Rat.atom("N_HOURS") for a in x.atoms() if a in ("len(self.hourly_rejection_loads)", "len(self.hourly_extraction_loads)")})
+        return x
+
     for s in fi.node.body:
         if s is loop:
             break
         if isinstance(s, ast.Assign) and len(s.targets) == 1 and isinstance(s.targets[0], ast.Name):
-            v = s.value
-            if (isinstance(v, ast.BinOp) and isinstance(v.op, ast.Add) and isinstance(v.left, ast.Subscript)
-                    and isinstance(v.left.slice, ast.Slice) and v.left.slice.upper is None
-                    and attr_chain(v.left.value) is not None and attr_chain(v.left.value) == attr_chain(v.right)):
-                series = attr_chain(v.right)
-                lo = eng.eval(v.left.slice.lower, st)
-                n_total = sym.call("len", [Rat.atom(series)])
-                plen = (n_total - lo) if isinstance(lo, Rat) else None
-                if isinstance(plen, Rat) and same_len:
-                    plen = plen.subs({a: Rat.atom("N_HOURS") for a in plen.atoms() if a in
-                                      ("len(self.hourly_rejection_loads)", "len(self.hourly_extraction_loads)")})
-                prefixed[s.targets[0].id] = (series, plen, s)
-                st.env[s.targets[0].id] = Rat.atom(s.targets[0].id)
+            sg = segs(s.value)
+            if sg is not None:
+                name = s.targets[0].id
+                lists[name] = sg
+                st.env[name] = Rat.atom(name)
+                if len(sg) >= 2 and sg[-1][1].is_zero() and sg[-1][2] is None:
+                    # <prefix segments> + the whole year of sg[-1][0]
+                    series = sg[-1][0]
+                    pre = sg[:-1]
+                    plen = Rat.const(0)
+                    foreign = [p_[0] for p_ in pre if p_[0] != series]
+                    tail_ok = True
+                    for ser, lo, hi in pre:
+                        n_total = sym.call("len", [Rat.atom(ser)])
+                        plen = plen + ((hi if hi is not None else n_total) - lo)
+                        tail_ok = tail_ok and hi is None
+                    plen = norm_len(plen)
+                    prefixed[name] = (series, plen, s)
+                    okp = not foreign and tail_ok and len(pre) == 1
+                    res.ob("R07.4", f"{name}: the hours put in front of {series.split('.')[-1]} are the END of the same series", okp, prog.loc(fi, s))
+                    if not okp:
+                        res.violation("R07.4", f"prefix-source:{series}", prog.loc(fi, s), q,
+                                      f"the year of {series} is prefixed with hours taken from {', '.join(foreign) if foreign else 'the middle of the series'}: "
+                                      "a peak on the first day of the year gets a two-day window whose first half is not the previous day of this series")
                 continue
             eng._s_Assign(s, st)
     want = {"self.hourly_rejection_loads": "self.monthly_peak_cl_day", "self.hourly_extraction_loads": "self.monthly_peak_hl_day"}
@@ -615,7 +708,31 @@ def _check_peak_provenance(prog: Program, res: Result):
                           f"{dy}[i] is not the day of the month's own peak in the window of {series}: {norm_stmt(sd)}")
 
 
+_IPF_OLD = '            ipf = [False] * (self.end_month + 1)\n            for i in range(self.start_month, self.end_month + 1):\n                # set flag that determines if peak load will be included\n                if i < self.start_month + self.peak_retain_start:\n                    ipf[i] = True\n                if i > self.end_month - self.peak_retain_end:\n                    ipf[i] = True\n'
+_PRE_OLD = '        hourly_rejection_loads = self.hourly_rejection_loads[hours_in_year - HRS_IN_DAY :] + self.hourly_rejection_loads\n        hourly_extraction_loads = (\n            self.hourly_extraction_loads[hours_in_year - HRS_IN_DAY :] + self.hourly_extraction_loads\n        )\n'
+
 VARIANTS = [
+    Variant("flags as a comprehension, last window aligned to whole years (seeded C07_b)", "break",
+            [(GL, _IPF_OLD, """            first_year_end = self.start_month + self.peak_retain_start - 1
+            last_year_start = (self.end_month - 1) // self.peak_retain_end * self.peak_retain_end + 1
+            ipf = [i <= first_year_end or i >= last_year_start for i in range(self.end_month + 1)]
+""")], "R07.2"),
+    Variant("flags as a comprehension with the same predicate", "benign",
+            [(GL, _IPF_OLD, """            first_year_end = self.start_month + self.peak_retain_start - 1
+            last_year_start = self.end_month - self.peak_retain_end + 1
+            ipf = [m <= first_year_end or m >= last_year_start for m in range(self.end_month + 1)]
+""")]),
+    Variant("year-wrap day factored out but taken from the rejection series for both (seeded C07)", "break",
+            [(GL, _PRE_OLD, """        last_day = self.hourly_rejection_loads[hours_in_year - HRS_IN_DAY :]
+        hourly_rejection_loads = last_day + self.hourly_rejection_loads
+        hourly_extraction_loads = last_day + self.hourly_extraction_loads
+""")], "R07.4"),
+    Variant("year-wrap days factored out, each from its own series", "benign",
+            [(GL, _PRE_OLD, """        last_day_rej = self.hourly_rejection_loads[hours_in_year - HRS_IN_DAY :]
+        last_day_ext = self.hourly_extraction_loads[hours_in_year - HRS_IN_DAY :]
+        hourly_rejection_loads = last_day_rej + self.hourly_rejection_loads
+        hourly_extraction_loads = last_day_ext + self.hourly_extraction_loads
+""")]),
     Variant("heating pulse with positive sign (cooling-first branch)", "break",
             [(GL, """                    # self.load = np.append(self.load, self.monthly_peak_hl[i]) JDS corrected 20200604
                     self.load = np.append(self.load, -self.monthly_peak_hl[i])
